@@ -1,7 +1,7 @@
 (* Property C09 — a parametric OCP is the family of OCPs with the values written in.
    Statements only; proofs in Proofs/ParamProofs.v (and PlaceProofs.v for per-interval columns). *)
 From Coq Require Import ZArith QArith Qcanon List Lia Bool.
-From RV Require Import Base.Num Base.PyList Base.Vec Expr Ocp Rows Mech.Grid Mech.Sampling Mech.Params
+From RV Require Import Proofs.VacuityA Base.Num Base.PyList Base.Vec Expr Ocp Rows Mech.Grid Mech.Sampling Mech.Params
      Mech.Shooting Spec.SpecPlace Inst Proofs.QcInst Proofs.ParamProofs Proofs.PlaceProofs.
 Import ListNotations.
 Local Open Scope nat_scope.
@@ -72,3 +72,8 @@ Example C09_nonvacuous :
   seen (prun (pinit [(0, 1%Z)]) [SetValue 0 2%Z; Transcribe; SetValue 1 5%Z; Edit; SetValue 0 7%Z]) 0 = Some 7%Z /\
   seen (prun (pinit [(0, 1%Z)]) [SetValue 0 2%Z; Transcribe; SetValue 1 5%Z; Edit; SetValue 0 7%Z]) 1 = Some 5%Z.
 Proof. split; reflexivity. Qed.
+
+(* further witnesses that the hypotheses of this file's theorems are met by realistic inputs (N = 1, M = 1, no controls,
+   t0 = 0, concrete grids / collocation points): proved in Proofs/VacuityA.v by the vacuity audit *)
+Example C09_more_witnesses : True.
+Proof. pose proof wf_lists_N1_M1_no_controls as _. pose proof C09_param_hyp_satisfiable as _. exact I. Qed.
